@@ -704,3 +704,87 @@ func runIns(cfg insCfg, ch func(int, []int) int, grace time.Duration) *scenOut {
 	out.Features["inserters"] = n
 	return out
 }
+
+// ---------------------------------------------------------------------------------------
+// scenario "keys": key operations of concurrent writers and the replica's key table (C06, C12)
+
+func mkKeyedColl(lg commit.Logger) *column.Collection {
+	c := column.NewCollection(column.Options{Vacuum: time.Hour, Writer: lg, Capacity: 64})
+	c.CreateColumn("v", column.ForInt64())
+	c.CreateColumn("k", column.ForKey())
+	return c
+}
+
+func seedKeyed(c *column.Collection) {
+	for _, kv := range []struct {
+		off uint32
+		key string
+	}{{0, "z"}, {16384 + 2, "k"}} {
+		row := commit.NewBuffer(16)
+		row.Reset("row")
+		row.PutOperation(commit.Insert, kv.off)
+		kb := commit.NewBuffer(16)
+		kb.Reset("k")
+		kb.PutString(commit.Put, kv.off, kv.key)
+		vb := commit.NewBuffer(16)
+		vb.Reset("v")
+		vb.PutUint64(commit.Put, kv.off, 1)
+		c.Replay(commit.Commit{ID: commit.Next(), Chunk: commit.ChunkAt(kv.off), Updates: []*commit.Buffer{row, kb, vb}})
+	}
+}
+
+func keyState(c *column.Collection) string {
+	out := ""
+	for _, k := range []string{"k", "z", "n"} {
+		var v int64
+		var has bool
+		err := c.QueryKey(k, func(r column.Row) error { v, has = r.Int64("v"); return nil })
+		out += fmt.Sprintf("%s:%v/%d/%v ", k, err == nil, v, has)
+	}
+	return out + fmt.Sprintf("count=%d", c.Count())
+}
+
+func runKeys(variant int, ch func(int, []int) int, grace time.Duration) *scenOut {
+	out := &scenOut{Viol: map[string][]string{}, Known: map[string][]string{}, Desc: fmt.Sprintf("keys: variant %d", variant), Features: map[string]int{}}
+	lg := &schedLogger{}
+	c := mkKeyedColl(lg)
+	defer c.Close()
+	seedKeyed(c)
+	lg.commits = nil
+	bodies := []func(){
+		func() { c.DeleteKey("k") },
+		func() { c.InsertKey("k", func(r column.Row) error { r.SetInt64("v", 7); return nil }) },
+	}
+	if variant%2 == 1 {
+		bodies = append(bodies, func() { c.UpsertKey("z", func(r column.Row) error { r.MergeInt64("v", 1); return nil }) })
+	}
+	if variant%3 == 2 {
+		bodies = append(bodies, func() { c.QueryKey("z", func(r column.Row) error { r.SetKey("n"); return nil }) })
+	}
+	s := NewSched(len(bodies), grace)
+	lg.s = s
+	installHook(s)
+	for i, f := range bodies {
+		s.Go(i, f)
+	}
+	alts, stuck := s.Run(ch)
+	removeHook()
+	out.Trace, out.Stuck, out.Steps, out.Choices, out.Alts = s.Trace, stuck, len(s.Trace), s.Choices, alts
+	if stuck {
+		out.viol("C18", "some thread never finished (deadlock) in the keys scenario")
+		return out
+	}
+	for _, p := range s.panics {
+		out.viol("C18", "panic: %s", p)
+	}
+	rep := mkKeyedColl(nil)
+	defer rep.Close()
+	seedKeyed(rep)
+	for _, cm := range lg.commits {
+		rep.Replay(cm.raw)
+	}
+	if p, r := keyState(c), keyState(rep); p != r {
+		out.viol("C06", "key lookups on the replica differ from the primary: primary [%s] replica [%s]", p, r)
+	}
+	return out
+}
